@@ -1562,6 +1562,8 @@ def build_cases(tier="quick"):
     ref += rewrap(PROP, c08.generic_cases(), "generic-layout-keys", lambda c: "simple_hash" in c.unit or "shape-separation" in c.unit)
     ref += rewrap(PROP, c09.returndata_cases(), "returndata-source")
     ref += rewrap(PROP, c08.literal_before_hash_cases(), "storage-spelling")
+    # the state that goes on in place keeps the shared solver: it must be taken from the worklist before its siblings (C02's unit)
+    ref += rewrap(PROP, c02.jumpi_cases() + c02.multi_return_cases(), "solver-stays-with-the-running-path")
     return stack_cases() + limit_cases() + env_cases() + memory_cases() + halt_cases() + sha3_cases() + returndata_cases() + ext_cases() + deviation_cases() + ref
 
 
